@@ -1080,6 +1080,9 @@ func (s *Sym) evalCall(v *ssa.Call) *Term {
 		switch b.Name() {
 		case "len":
 			x := s.Of(cc.Args[0])
+			if x.Op == "make" && len(x.Args) >= 1 {
+				return x.Args[0] // len(make(n, ...)) is n
+			}
 			return T("len", "", x)
 		case "cap":
 			return T("cap", "", s.Of(cc.Args[0]))
